@@ -124,6 +124,14 @@ def all_faults(m):
     return F
 
 
+def _noise_key(a, key, reading):
+    """the key object under which `reading` sits in the sensor's noise map (a string or a Symbol of that name)"""
+    for k in a["sensor_noises"][key]:
+        if str(k) == str(reading):
+            return k
+    raise KeyError(reading)
+
+
 def apply_fault(a, f):
     tab = a["tab"]
     und = tab["__undeclared__"]
@@ -184,9 +192,9 @@ def apply_fault(a, f):
     elif cls == "sensor-noise-extra-sensor":
         a["sensor_noises"]["ghost_sensor"] = {"g": 0.5}
     elif cls == "sensor-noise-missing-reading":
-        del a["sensor_noises"][f["key"]][f["reading"]]
+        del a["sensor_noises"][f["key"]][_noise_key(a, f["key"], f["reading"])]
     elif cls == "sensor-noise-unknown-reading":
-        a["sensor_noises"][f["key"]]["ghost_reading"] = a["sensor_noises"][f["key"]].pop(f["reading"])
+        a["sensor_noises"][f["key"]]["ghost_reading"] = a["sensor_noises"][f["key"]].pop(_noise_key(a, f["key"], f["reading"]))
     elif cls == "sensor-noise-extra-reading":
         a["sensor_noises"][f["key"]]["ghost_reading"] = 0.5
     elif cls == "sensor-uses-undeclared":
